@@ -135,3 +135,40 @@ Definition burst_scn (m : rmodel) (k_hold k_tick k : nat) : nat :=
   let progs := ([Call k_hold []], 1) :: map (fun i => ([Call k_tick [i; 0]], 1)) (seq 0 k) in
   let s := run0 m 0 progs (twice 0 ++ [Ac] ++ flat_map (fun t => [Cl t; Cl t; Cl t]) (seq 1 k)) in
   length (filter (fun cl => Nat.eqb (outcome_class cl) 0) (skipn 1 (clients s))).
+
+(* ---- bounded depth-first search over schedules (failing-input search only; never in place of a theorem) ---- *)
+Section Search.
+Variable m : rmodel.
+Variable bad : st0 -> bool.
+Variable nclients : nat.
+Definition choices : list choice := Ac :: map Cl (seq 0 nclients).
+(* returns the first schedule (in reverse) reaching a bad state; disabled choices are pruned *)
+Fixpoint dfs (depth : nat) (s : st0) (path : list choice) : option (list choice) :=
+  if bad s then Some path else
+  match depth with
+  | 0 => None
+  | S d =>
+      (fix try (cs : list choice) : option (list choice) :=
+         match cs with
+         | [] => None
+         | c :: rest =>
+             match step sem0 sem_slf0 0 m s c with
+             | Some s' => match dfs d s' (c :: path) with Some p => Some p | None => try rest end
+             | None => try rest
+             end
+         end) choices
+  end.
+End Search.
+
+Definition render_choice (c : choice) : nat := match c with Ac => 0 | Cl t => S t end.   (* 0 = actor step, t+1 = client t *)
+(* generic monitors *)
+Definition bad_loss (s : st0) : bool := alive s && negb (Nat.eqb (length (lost s)) 0).
+Definition bad_cap (want : option nat) (s : st0) : bool := match want with Some n => n <? length (queue s) | None => false end.
+Definition bad_silent (s : st0) : bool :=
+  negb (alive s) && existsb (fun cl => existsb (fun r => match r with
+        | (c, RetUnit) => negb (existsb (callid_eqb c) (applied_ids s)) && negb (existsb (callid_eqb c) (enq s))
+        | _ => false end) (c_rets cl)) (clients s).
+(* search with 3 clients calling method k (client 0 with a panicking argument when [boom]) *)
+Definition search (m : rmodel) (bad : st0 -> bool) (k : nat) (boom : bool) (depth : nat) : option (list nat) :=
+  let progs := map (fun i => ([Call k (if boom && Nat.eqb i 0 then repeat 999 (Nat.max 1 (arity m k)) else tagged i k (arity m k))], 1)) (seq 0 3) in
+  match dfs m bad 3 depth (init 0 progs) [] with Some p => Some (map render_choice (rev p)) | None => None end.
